@@ -213,6 +213,15 @@ class Module:
             if isinstance(n, (ast.FunctionDef, ast.AsyncFunctionDef, ast.Lambda)) and n.args.posonlyargs:
                 n.args.args = n.args.posonlyargs + n.args.args
                 n.args.posonlyargs = []
+            # likewise `def f(a, *, k)` read as `def f(a, k)` (a bare `*`, and the defaults still form a suffix): every call that is valid
+            # with the marker names k by keyword, and binds the same without it
+            if isinstance(n, (ast.FunctionDef, ast.AsyncFunctionDef)) and n.args.kwonlyargs and n.args.vararg is None:
+                a = n.args
+                has = [False] * (len(a.args) - len(a.defaults)) + [True] * len(a.defaults) + [d is not None for d in a.kw_defaults]
+                if has == sorted(has):
+                    a.args = a.args + a.kwonlyargs
+                    a.defaults = list(a.defaults) + [d for d in a.kw_defaults if d is not None]
+                    a.kwonlyargs, a.kw_defaults = [], []
         self.is_pkg = path.name == "__init__.py"
         self.imports: dict[str, str] = {}     # local name -> qualified dotted name
         self.classes: dict[str, Class] = {}
